@@ -91,6 +91,7 @@ func (s *c41IPSets) SetFilter(set.Set[string])          {}
 type c41EP struct {
 	V4, V6       []string // bare addresses
 	DSCP         bool     // has QoS policies (DSCP marking)
+	DSCPValues   []int32  // the marking values, any legal DSCP 0..63 (0 = DF is a marking too)
 	Controls     bool     // has a QoSControls struct at all
 	InConn       int64
 	OutConn      int64
@@ -125,7 +126,11 @@ func (e *c41EP) qosPolicies() []*proto.QoSPolicy {
 	if !e.DSCP {
 		return nil
 	}
-	return []*proto.QoSPolicy{{Dscp: 20}}
+	var out []*proto.QoSPolicy
+	for i, v := range e.DSCPValues {
+		out = append(out, &proto.QoSPolicy{Dscp: v, Destination: []string{"0.0.0.0/0", "10.0.0.0/8", "::/0"}[i%3]})
+	}
+	return out
 }
 
 func (e *c41EP) wep() *proto.WorkloadEndpoint {
@@ -186,6 +191,13 @@ func c41DrawAddrs(t *rapid.T, pool []string, label string) []string {
 func c41DrawEP(t *rapid.T, host bool) *c41EP {
 	e := &c41EP{V4: c41DrawAddrs(t, c41PoolV4, "v4addr"), V6: c41DrawAddrs(t, c41PoolV6, "v6addr")}
 	e.DSCP = rapid.IntRange(0, 3).Draw(t, "dscp") == 0
+	if e.DSCP {
+		// One or two policies; values from the whole legal range, with the boundary 0 (DF) common.
+		n := rapid.IntRange(1, 2).Draw(t, "dscpPolicies")
+		for i := 0; i < n; i++ {
+			e.DSCPValues = append(e.DSCPValues, rapid.SampledFrom([]int32{0, 0, 0, 8, 20, 46, 63}).Draw(t, "dscpValue"))
+		}
+	}
 	if host {
 		return e
 	}
@@ -335,7 +347,7 @@ func c41RulesConfig() rules.Config {
 func TestVerifC41FlowOffloadExclusion(t *testing.T) {
 	ev.Quiet()
 	rec := ev.New("C41", "flowtable-exclusion",
-		"histories of workload (3 ids) and host (2 ids) endpoint update/remove messages with 0-2 addresses per family from a pool of 4 (shared and changing), DSCP policies and QoS controls (none / all-zero / bandwidth-only / ingress|egress connection limit / ingress|egress packet rate / mixed) toggling, IPv4 and IPv6 managers, CompleteDeferredWork after batches of any size; after each one the programmed set is compared with the model and the rendered offload rule is interpreted over 5 conntrack states x (pool+1)^2 address pairs. Non-trivial = an endpoint with addresses stopped needing hooks (QoS cleared) or was removed while excluded, or an excluded endpoint changed addresses (class leaves-while-address-shared counts the cases where another excluded endpoint still owns one of the addresses); distinct = distinct op sequence",
+		"histories of workload (3 ids) and host (2 ids) endpoint update/remove messages with 0-2 addresses per family from a pool of 4 (shared and changing), DSCP policies (1-2 per endpoint, values over the legal range including 0 = DF) and QoS controls (none / all-zero / bandwidth-only / ingress|egress connection limit / ingress|egress packet rate / mixed) toggling, IPv4 and IPv6 managers, CompleteDeferredWork after batches of any size; after each one the programmed set is compared with the model and the rendered offload rule is interpreted over 5 conntrack states x (pool+1)^2 address pairs. Non-trivial = an endpoint with addresses stopped needing hooks (QoS cleared) or was removed while excluded, or an excluded endpoint changed addresses (class leaves-while-address-shared counts the cases where another excluded endpoint still owns one of the addresses); distinct = distinct op sequence",
 		"the real IP sets layer names the set IPVersionConfig.NameForMainIPSet(setID) (nft-legalised), as the recording double does",
 		"the conntrack/set clause shapes understood by the rule interpreter are: ct state [!=] list, ip|ip6 saddr|daddr [!=] @set; anything else is reported as HARNESS-GAP")
 	defer rec.Write()
@@ -436,6 +448,25 @@ func TestVerifC41FlowOffloadExclusion(t *testing.T) {
 			}
 		}
 
+		allZero := func(e *c41EP) bool {
+			if e == nil || !e.DSCP {
+				return false
+			}
+			for _, v := range e.DSCPValues {
+				if v != 0 {
+					return false
+				}
+			}
+			return true
+		}
+		noteDSCP := func(old, now *c41EP) {
+			if allZero(now) && !now.Controls && len(now.addrs(ipVersion)) > 0 {
+				classes["dscp-0-only-marking"] = true
+				if old != nil && old.DSCP && !allZero(old) {
+					classes["remarked-nonzero-to-dscp-0"] = true
+				}
+			}
+		}
 		complete := func() {
 			if err := mgr.CompleteDeferredWork(); err != nil {
 				t.Fatalf("CompleteDeferredWork: %v", err)
@@ -482,6 +513,7 @@ func TestVerifC41FlowOffloadExclusion(t *testing.T) {
 					e.V4, e.V6 = old.V4, old.V6
 				}
 				noteLeave(weps[k], e)
+				noteDSCP(weps[k], e)
 				weps[k] = e
 				mgr.OnUpdate(&proto.WorkloadEndpointUpdate{
 					Id:       &proto.WorkloadEndpointID{OrchestratorId: "k8s", WorkloadId: fmt.Sprintf("ns/pod-%d", k), EndpointId: "eth0"},
@@ -494,6 +526,7 @@ func TestVerifC41FlowOffloadExclusion(t *testing.T) {
 				k := rapid.IntRange(0, 1).Draw(t, "hepId")
 				e := c41DrawEP(t, true)
 				noteLeave(heps[k], e)
+				noteDSCP(heps[k], e)
 				heps[k] = e
 				mgr.OnUpdate(&proto.HostEndpointUpdate{Id: &proto.HostEndpointID{EndpointId: fmt.Sprintf("hep-%d", k)}, Endpoint: e.hep()})
 				shape = append(shape, fmt.Sprintf("H%d%v", k, e.needsHooks()))
